@@ -36,7 +36,8 @@ RULE = ("enc: 12 classes x tables of 0..40 entries (+41,100,255,300) x payload l
         "lengths {0,4,correct-1,correct+1,correct+10,65535}; cdec: all function codes 0..255 x body "
         "lengths{0,1,2,5,6,9,10,11,20,30}, mutated frames, all octet strings of length <=2, and of length "
         "<=3 (quick) / <=4 (thorough) starting with 0x81.  distinct = distinct (stream, function, size "
-        "class / error kind and length bucket) signatures")
+        "class / error kind and length bucket) signatures"
+        "; history: message objects sent, looped back through the intermediate BVLPDU, changed and sent again through two real AnnexJCodecs, refused sends/datagrams in between, buffer-aliasing checks")
 TRUSTED = ["lean/BacVerif/Model/Bvll.lean is a hand transcription of bvll.py, pack/unpack_ip_addr and "
            "AnnexJCodec; tied by the enc/dec/cdec/bdec/benc/pack/unpack correspondence streams",
            "translator/registries.py (bvl_pdu_types -> Gen/BvlTypes.lean)",
